@@ -22,6 +22,7 @@ const ruleC12 = "a random SCALE type (as C11) and an input that is random bytes,
 	"consumes at least one field before the mutation takes effect"
 
 const findingShortRead = "C12-short-read-zero-fill"
+const findingUsedDst = "C12-option-into-used-destination"
 const findingBomb = "C12-decode-bytes-preallocates-declared-length"
 
 // bombThreshold: declared byte-string lengths up to this size cannot exceed the allocation bound.
@@ -75,6 +76,9 @@ type verdict struct {
 	refOKImplErr bool
 }
 
+// c12ValidEnc: a valid canonical encoding of a value of the type under test (set by the caller, may be nil).
+var c12ValidEnc []byte
+
 // checkDecode is the C12 oracle for one (type, input).
 func checkDecode(t failer, d *desc, data []byte, mustFail bool, class string) (vd verdict) {
 	rd := decoder{in: data}
@@ -127,6 +131,25 @@ func checkDecode(t failer, d *desc, data []byte, mustFail bool, class string) (v
 	}
 	if res.err != nil {
 		vd.refOKImplErr = rerr == nil
+		// a rejection does not depend on what the destination held before: the same input
+		// decoded into a destination already filled by a successful decode of a valid
+		// encoding of the type (c12ValidEnc) is rejected as well
+		if c12ValidEnc != nil && d.has(kOption) && kit.KnownOpen(findingUsedDst) {
+			// known finding: decodePointer treats a destination whose pointer is already set
+			// differently (no fresh element; payload of Some decoded into the old pointee,
+			// None leaves it in place; pointer-to-pointer unwrapped without its option byte)
+			kit.Excluded(findingUsedDst)
+		} else if c12ValidEnc != nil {
+			dst3 := newDst(d)
+			if e0 := safeUnmarshal(append([]byte{}, c12ValidEnc...), dst3.Interface()); e0 == nil {
+				if e1 := safeUnmarshal(append([]byte{}, data...), dst3.Interface()); e1 == nil {
+					t.Fatalf("input rejected with a fresh destination (%v) is accepted when the destination already holds the value decoded from %s%s", res.err, hexs(c12ValidEnc), ctx())
+				} else if len(e1.Error()) > 5 && e1.Error()[:5] == "PANIC" {
+					t.Fatalf("decoding into a used destination: %v%s", e1, ctx())
+				}
+				kit.Label("rejected-also-with-used-destination")
+			}
+		}
 		return vd
 	}
 	vd.accepted = true
@@ -272,7 +295,9 @@ func TestC12Decode(t *testing.T) {
 			mustFail = true
 			labels[fmt.Sprintf("bomb-role-%d", c.role)] = true
 		}
+		c12ValidEnc = enc
 		vd := checkDecode(t, d, data, mustFail, class)
+		c12ValidEnc = nil
 		if class == "trailing" && !vd.accepted && !vd.excluded {
 			// not demanded by C12 (C11 demands that canonical encodings decode); measured only
 			labels["trailing-rejected"] = true
@@ -446,6 +471,27 @@ func TestC12KnownShortRead(t *testing.T) {
 		kit.WitnessResult(findingShortRead, false, "")
 	default:
 		t.Fatalf("different signature: uint32 from 2 bytes -> %d, %v; int64 from 1 byte -> %v", u, err, err2)
+	}
+}
+
+// TestC12KnownUsedDestination is the witness of finding C12-option-into-used-destination.
+func TestC12KnownUsedDestination(t *testing.T) {
+	defer kit.Flush()
+	// Option<BigInt> is a pointer to *big.Int; the destination handed to Unmarshal points to it
+	var fresh **big.Int
+	errFresh := safeUnmarshal([]byte{0x01}, &fresh) // Some, payload missing
+	var used **big.Int
+	if err := safeUnmarshal([]byte{0x01, 0x00}, &used); err != nil || used == nil || *used == nil || (*used).Sign() != 0 {
+		t.Fatalf("different signature: Unmarshal(0100, Option<BigInt>) = %v, %v", used, err)
+	}
+	errUsed := safeUnmarshal([]byte{0x01}, &used)
+	switch {
+	case errFresh != nil && errUsed == nil:
+		kit.WitnessResult(findingUsedDst, true, fmt.Sprintf("Unmarshal(01, Option<BigInt>): fresh destination -> %v; destination already holding Some(0) -> nil error", errFresh))
+	case errFresh != nil && errUsed != nil:
+		kit.WitnessResult(findingUsedDst, false, "")
+	default:
+		t.Fatalf("different signature: fresh %v, used %v", errFresh, errUsed)
 	}
 }
 
